@@ -136,8 +136,9 @@ class Repo:
                 mods.append(mod)
         # normalisation: `match` statements become the if/elif chains they abbreviate (see sa/desugar.py)
         from .desugar import desugar
-        for m in mods:
-            desugar(m.tree)
+        if os.environ.get('AIOSLSK_VERIF_NO_DESUGAR') != '1':
+            for m in mods:
+                desugar(m.tree)
         # normalisation: inline helpers the rule set has never seen (see sa/inline.py)
         self.inline_log: list[str] = []
         self.known_funcs: set[str] = set()
